@@ -123,7 +123,7 @@ def check_live_mutants(d):
         cfgp = os.path.join(d, f"livemut_{cname}_{flag}.cfg")
         open(cfgp, "w").write(live_cfg_text(c, flags={flag: False}))
         out, _, _, _ = tlc("MCXsConcurrent.tla", cfgp, workers=8, timeout=1200)
-        caught = "Temporal properties were violated" in out
+        caught = ("Temporal properties were violated" in out) or (f"Temporal property {prop} was violated" in out)
         res.append({"cfg": cname, "flag": flag, "property": prop, "caught": caught})
         if not caught:
             raise ToolError(f"liveness spec mutant {cname}/{flag} not caught: the temporal properties are vacuous")
